@@ -22,7 +22,7 @@ ROOT = os.path.dirname(os.path.dirname(os.path.abspath(__file__)))
 PY = os.path.join(ROOT, '.venv', 'bin', 'python')
 if not os.path.exists(PY):          # a snapshot of /verif (vp run) has no venv of its own
     PY = '/verif/.venv/bin/python'
-EVID = os.path.join(ROOT, 'evidence')
+EVID = os.environ.get('VPX_EVIDENCE_DIR') or os.path.join(ROOT, 'evidence')
 KF_FILE = os.path.join(ROOT, 'known_findings.json')
 
 
